@@ -328,7 +328,7 @@ public:
       c.live_output = r.chance(0.3);
       c.live_mask = (int)r.below(16);
       c.gravity = r.chance(0.2);
-      c.source_type = (int)r.below(4);
+      c.source_type = (int)r.below(5);
       c.feedback = c.source_type == 3 && r.chance(0.7);
       if (r.chance(0.8) && c.dyadic) {
         c.dyadic = false;
@@ -359,7 +359,7 @@ public:
       c.writer = r.chance(0.3) ? 1 : 0;
       c.dump_every_step = r.chance(0.5);
       c.restart_midway = c.dump_every_step && r.chance(0.6) && c.steps >= 2;
-      c.source_type = (int)r.below(4);
+      c.source_type = (int)r.below(5);
       c.feedback = c.source_type == 3 && r.chance(0.5);
       c.backups = (int)r.range(0, 3);
       c.threads = std::min(c.threads, 6);
